@@ -421,6 +421,24 @@ fn main() {
                         }
                     }
                 }
+                ThreadKind::FdChurner => {
+                    slot(i, SLOT_TID).store(gettid() as u64, Ordering::SeqCst);
+                    let devnull = unsafe { libc::open(b"/dev/null\0".as_ptr() as *const libc::c_char, libc::O_RDWR) };
+                    slot(i, SLOT_READY).store(1, Ordering::SeqCst);
+                    let mut k: i32 = 0;
+                    loop {
+                        unsafe {
+                            libc::dup2(devnull, 3000 + (k % 256));
+                            libc::close(3000 + ((k + 255) % 256));
+                        }
+                        k = k.wrapping_add(1) & 0xffff;
+                        slot(i, SLOT_HEARTBEAT).fetch_add(1, Ordering::SeqCst);
+                        unsafe {
+                            let ts = libc::timespec { tv_sec: 0, tv_nsec: 50_000 };
+                            libc::nanosleep(&ts, std::ptr::null_mut());
+                        }
+                    }
+                }
                 ThreadKind::Sleeper => {
                     slot(i, SLOT_TID).store(gettid() as u64, Ordering::SeqCst);
                     slot(i, SLOT_READY).store(1, Ordering::SeqCst);
